@@ -107,11 +107,15 @@ def check(prog, run):
     r = run.rule("S2", "execute_subscription_event clears the error list before executing the selection, executes it with the "
                        "event as root value, and builds the result from a copy of the error list", 4)
 
+    from ..canon import Canon
+    ecn = Canon(ese.node)
+
     def ev(n):
-        if isinstance(n, ast.Call) and isinstance(n.func, ast.Attribute):
-            if n.func.attr == "clear_errors":
+        if isinstance(n, ast.Call):
+            ft = ecn.func_text(n)
+            if ft.endswith(".clear_errors"):
                 return "clear"
-            if n.func.attr == "execute_fields":
+            if ft.endswith(".execute_fields"):
                 return "execute"
         return None
     normal, raised = event_paths(ese.node, ev, may_raise=lambda n: None)
@@ -120,9 +124,9 @@ def check(prog, run):
         if list(seq) != ["clear", "execute"]:
             run.report(r, "%s:execute_subscription_event:path(%s)" % (SUB, ">".join(seq)), ese.where(),
                        "per-event path is %s (expected clear then execute): errors of earlier events leak into this event's result" % list(seq))
-    ef = [n for n in own_nodes(ese.node) if isinstance(n, ast.Call) and isinstance(n.func, ast.Attribute) and n.func.attr == "execute_fields"]
+    ef = [n for n in own_nodes(ese.node) if isinstance(n, ast.Call) and ecn.func_text(n).endswith(".execute_fields")]
     if ef:
-        root_arg = ast.unparse(ef[0].args[1]) if len(ef[0].args) > 1 else None
+        root_arg = ecn.text(ef[0].args[1]) if len(ef[0].args) > 1 else None
         r.instance("execute_fields root value argument: %s" % root_arg)
         if root_arg != ese.params[3]:
             run.report(r, "%s:execute_subscription_event:root-value" % SUB, ese.where(ef[0]), "the event is not the root value of the per-event execution (got %s)" % root_arg)
@@ -183,7 +187,7 @@ def check(prog, run):
                 run.report(r, "%s:AsyncMap.__anext__:swallows-end" % AIO, an.where(n), "a handler can swallow StopAsyncIteration: the response stream never ends")
     ms = prog.get_func(AIO, "AsyncIORuntime.map_stream")
     rets = [x for x in own_nodes(ms.node) if isinstance(x, ast.Return)]
-    txt = ast.unparse(rets[0].value) if rets else ""
+    txt = Canon(ms.node).text(rets[0].value) if rets else ""
     r.instance("map_stream returns `%s`" % txt)
     if txt != "AsyncMap(%s, %s)" % (ms.params[1], ms.params[2]):
         run.report(r, "%s:AsyncIORuntime.map_stream:shape" % AIO, ms.where(), "map_stream returns `%s`" % txt)
